@@ -548,6 +548,9 @@ func lazyOne(c *Ctx, t *lazyTarget, b []byte, second []byte, what string, fixed 
 	if c.Intn(8) == 0 {
 		limit = 1 + c.Intn(6)
 	}
+	if lazyForceLimit > 0 {
+		limit = lazyForceLimit
+	}
 	// verdicts
 	mL, cL := lazyDecode(t.mt, b, false, true, limit)
 	mE, cE := lazyDecode(t.mt, b, true, true, limit)
@@ -738,6 +741,38 @@ func lazyCase(c *Ctx, t *lazyTarget, b []byte, limit int, cL, sL string) {
 	c.Case("lazy", "lz", in, append([]string{cL, sL, raw}, msgDump(m)...))
 }
 
+var lazyForceLimit int
+
+// lazyBreadth: inside a lazy field, many sequential occurrences of a depth-consuming construct
+// (or a boundary-numbered field in some nesting context) under a small RecursionLimit that the
+// real nesting fits: the validation-only pass and the eager decoder must agree.
+func lazyBreadth(c *Ctx, t *lazyTarget) (b []byte, limit int, what string) {
+	fd := t.lazy[c.Intn(len(t.lazy))]
+	sub := fd.Message()
+	var payload []byte
+	cost := 0
+	if c.Intn(4) == 0 {
+		extra := dectotBoundaryField(c)
+		payload, _, cost = dectotNestFn(c, sub, c.Intn(3), func(protoreflect.MessageDescriptor) ([]byte, int) { return extra, 0 }, extra, c.Bool())
+		what = "lazy_boundary_tag"
+		limit = 0
+	} else {
+		payload, _, cost = dectotNestFn(c, sub, c.Intn(3), func(md protoreflect.MessageDescriptor) ([]byte, int) {
+			return dectotSiblingBytes(c, md, 22+c.Intn(8))
+		}, nil, false)
+		what = "lazy_siblings"
+		limit = 1 + cost + c.Intn(3)
+		if limit > 20 {
+			limit = 0
+		}
+	}
+	b = protowire.AppendBytes(protowire.AppendTag(nil, fd.Number(), protowire.BytesType), payload)
+	if c.Bool() {
+		b = append(b, lazyFillBytes(c, t.mt, 1, 6)...)
+	}
+	return b, limit, what
+}
+
 func lazyShort(toks []string) string {
 	s := strings.Join(toks, " ")
 	if len(s) > 300 {
@@ -902,6 +937,14 @@ func famLazy(c *Ctx) {
 			}
 			var b []byte
 			what := ""
+			if len(t.lazy) > 0 && c.Intn(8) == 0 {
+				var lim int
+				b, lim, what = lazyBreadth(c, t)
+				lazyForceLimit = lim
+				lazyOne(c, t, b, second, what)
+				lazyForceLimit = 0
+				return
+			}
 			switch r := c.Intn(10); {
 			case r < 3:
 				b, what = lazyFillBytes(c, t.mt, 1+c.Intn(3), 40), "fill"
